@@ -104,9 +104,11 @@ def getXSTypeLabelFromNumber(xsTypeNumber: int) -> str:
     2-digit labels are supported when there is only one burnup group.
     """
     try:
-        if xsTypeNumber > ord("Z"):
-            # two digit. Parse
-            return chr(int(str(xsTypeNumber)[:2])) + chr(int(str(xsTypeNumber)[2:]))
+        if xsTypeNumber > ord("z"):
+            # two characters (two or three digits each; a lower-case letter needs three from "d" on)
+            digits = str(xsTypeNumber)
+            split = 3 if digits[0] == "1" else 2
+            return chr(int(digits[:split])) + chr(int(digits[split:]))
         elif xsTypeNumber < ord("A"):
             raise ValueError(
                 f"Cannot convert invalid xsTypeNumber `{xsTypeNumber}` to char. "
